@@ -144,8 +144,43 @@ type NodeCall struct {
 // Memory: [0x00,0x20) accumulator, [0x20,0x40) child's returned word, [0x40,..) calldata of the call.
 func BuildNode(calls []NodeCall) []byte {
 	a := NewAsm()
+	emitNode(a, "", calls)
+	return a.Bytes()
+}
+
+// further opcodes (dispatcher of BuildNodeVariants)
+const (
+	OpEQ           byte = 0x14
+	OpSHR          byte = 0x1c
+	OpCALLDATALOAD byte = 0x35
+)
+
+// BuildNodeVariants assembles ONE contract that behaves like BuildNode(variants[v]) where v is the first byte of its
+// calldata (no calldata: variant 0; a byte that names no variant: empty return).  With it the same contract address
+// can stand at several nodes of a call tree (a contract that is re-entered: self calls, A -> B -> A, the
+// transaction's `to` contract reappearing below a STATICCALL): the caller passes the node's variant as calldata
+// (NodeCall.Payload = []byte{v}).  Every variant ends in RETURN / REVERT, nothing falls through.
+func BuildNodeVariants(variants [][]NodeCall) []byte {
+	if len(variants) > 255 {
+		panic("too many variants")
+	}
+	a := NewAsm()
+	a.PushU(0).Op(OpCALLDATALOAD).PushU(248).Op(OpSHR) // first calldata byte
+	for v := range variants {
+		a.Op(OpDUP1).PushU(uint64(v)).Op(OpEQ).PushLabel(fmt.Sprintf("v%d", v)).Op(OpJUMPI)
+	}
+	a.Op(OpSTOP)
+	for v, calls := range variants {
+		a.Label(fmt.Sprintf("v%d", v)).Op(OpPOP)
+		emitNode(a, fmt.Sprintf("v%d_", v), calls)
+	}
+	return a.Bytes()
+}
+
+// emitNode emits the straight-line program of one node (labels prefixed with pre), ending in RETURN.
+func emitNode(a *Asm, pre string, calls []NodeCall) {
 	for i, c := range calls {
-		dl := fmt.Sprintf("d%d", i)
+		dl := fmt.Sprintf("%sd%d", pre, i)
 		a.Data(dl, c.Payload)
 		// clear the child's return slot
 		a.PushU(0).PushU(0x20).Op(OpMSTORE)
@@ -167,7 +202,7 @@ func BuildNode(calls []NodeCall) []byte {
 		}
 		a.Op(c.Op)
 		if c.Strict {
-			ok := fmt.Sprintf("ok%d", i)
+			ok := fmt.Sprintf("%sok%d", pre, i)
 			a.Op(OpDUP1).PushLabel(ok).Op(OpJUMPI).PushU(0).Op(OpDUP1).Op(OpREVERT).Label(ok)
 		}
 		if c.Leaf {
@@ -178,7 +213,6 @@ func BuildNode(calls []NodeCall) []byte {
 		a.PushU(0).Op(OpMLOAD).Op(OpOR).PushU(0).Op(OpMSTORE)
 	}
 	a.PushU(0x20).PushU(0).Op(OpRETURN)
-	return a.Bytes()
 }
 
 // BuildProxy assembles a contract that forwards its whole calldata to target with the given call opcode
